@@ -13,6 +13,7 @@ for id in $ids; do
   git -C /repo apply "$d/patch.diff"
   res=""
   for p in $prop ${ALSO:-}; do
+    touched="${touched:-} $p"
     if grep -q "\"property_id\": \"$p\"" MANIFEST.json; then
       out=$(bin/gritsvc check -property $p -tier quick 2>&1); rc=$?
       n=$(echo "$out" | grep -c '^VIOLATION')
@@ -25,4 +26,5 @@ for id in $ids; do
   git -C /repo checkout -- . 
   case "$res" in *rc=1*) echo "$id: DETECTED $res";; *) echo "$id: MISSED $res";; esac
 done
-# restore evidence of the unchanged tree is the caller's job (re-run the checks)
+# evidence files were rewritten by the runs on changed trees: regenerate them on the unchanged tree
+for p in $(echo $touched | tr ' ' '\n' | sort -u); do bin/gritsvc check -property $p -tier quick > /dev/null 2>&1 || echo "WARNING: $p fails on the unchanged tree"; done
